@@ -7,3 +7,4 @@ open JetVerif.Props.C10
 #print axioms jet_reset_shape
 #print axioms jet_no_residue
 #print axioms execute_starts_clean
+#print axioms pools_are_accounted_for
